@@ -88,6 +88,8 @@ type c07Space struct {
 	la    []wire.AckRange // ranges of the most recently generated ACK (what the peer was told)
 	acked c07Set          // set of LargestAcked values of all generated ACKs (legal forget-below values - 1)
 
+	keepAcked bool // the set `acked` is part of the state (older ACKs may still be acknowledged)
+
 	dropped bool
 	timed   bool // arrival times matter (application data only)
 }
@@ -205,7 +207,7 @@ func (s *c07Space) key(now monotime.Time) string {
 	// only largest-acked values that can still raise the threshold matter
 	sb.WriteString(" fb=")
 	for l := 0; l < s.U; l++ {
-		if s.acked[l] && l+1 > s.T {
+		if s.keepAcked && s.acked[l] && l+1 > s.T {
 			fmt.Fprintf(&sb, "%d,", l+1)
 		}
 	}
